@@ -391,7 +391,9 @@ func c12Genesis(g *lcGen, cv protocol.ConsensusVersion) string {
 		st, vid, sid, spid, vf, vl, vkd, ie := 0, 0, 0, 0, 0, 0, 0, "0"
 		if bal >= mb && g.r.Chance(40) {
 			st, vid, sid, spid, vf, vl, vkd = 1, int(10+id), int(20+id), int(30+id), 1, 3+g.r.Intn(40), 100
-			if g.r.Chance(30) {
+			if g.r.Chance(55) {
+				vl = 2 + g.r.Intn(7) // keys expire within the case: an untouched account is knocked offline by the block itself, its rewards unapplied
+			} else if g.r.Chance(40) {
 				vl = 100 + g.r.Intn(5000)
 			}
 			if g.r.Chance(50) {
@@ -428,7 +430,11 @@ func c12Touches(g *lcGen, v *lcView) []string {
 			continue
 		}
 		crosses := g.balWP(d)/g.unit != d.MicroAlgos.Raw/g.unit
-		if !(crosses && g.r.Chance(55)) && !g.r.Chance(4) {
+		pct := 60
+		if d.Status == basics.Online {
+			pct = 15 // online accounts are mostly left alone: an untouched one with unapplied rewards may be knocked offline (expired keys) by the block itself
+		}
+		if !(crosses && g.r.Chance(pct)) && !g.r.Chance(3) {
 			continue
 		}
 		payer := uint64(0)
